@@ -6,7 +6,9 @@
  * block that ENDS exactly where the caller's contract says the buffer ends (ilen resp. olen frames per channel), so
  * the sanitizer sees any over-read / over-write by a single byte; `mis=k` shifts the start of each sample buffer by k
  * samples into its block (natural alignment only: what a caller may legitimately pass).  The harness itself checks
- * the reported counts (idone <= ilen, odone <= olen) and prints `C breach …` when they are violated.
+ * the reported counts (idone <= ilen, odone <= olen) and prints `C breach …` when they are violated.  Output buffers
+ * are pre-filled with a pattern; after the call the harness reports how far the library wrote (`wext`, in frames):
+ * the footprint model of Properties/C07 says exactly `odone` frames are written, so `wext <= odone` is diffed too.
  *
  *   create ir= or= ch= recipe= qflags= phase= prec= pb= sb= itype= otype= scale= ioflags= threads= min= large= kb= rtflags= mis= avoid=
  *          (ir=0 / or=0 / ch=0: deferred configuration, completed by setratio / setch)
@@ -93,6 +95,24 @@ static buf_t make_buf(int type, size_t frames, int fill)
   }
   return r;
 }
+#define PATTERN 0xA5
+static void pattern_buf(buf_t * b, int type, size_t frames)
+{
+  unsigned c; size_t bytes = frames * tsize(type) * ((type & SOXR_SPLIT)? 1 : ch);
+  for (c = 0; c < b->n; ++c) memset(b->blks[c].p, PATTERN, bytes);
+}
+/* number of leading frames of the buffer the library (may have) touched: position of the last byte that lost the pattern */
+static size_t write_extent(buf_t * b, int type, size_t frames)
+{
+  unsigned c; size_t fb = tsize(type) * ((type & SOXR_SPLIT)? 1 : ch), bytes = frames * fb, ext = 0;
+  for (c = 0; c < b->n; ++c) {
+    unsigned char const * p = b->blks[c].p; size_t i = bytes;
+    while (i && p[i - 1] == PATTERN) --i;
+    if (fb && (i + fb - 1) / fb > ext) ext = (i + fb - 1) / fb;
+  }
+  return ext;
+}
+
 static void free_buf(buf_t * b)
 {
   unsigned c;
@@ -192,11 +212,11 @@ static void do_create(char * * t, int nt)
 
 static void run_process(int hasIn, int flushReq, int useIdone, size_t ilen, size_t olen, char * * scr, int nscr, int is_pull, int null_out)
 {
-  buf_t in, out; size_t idone = 0, odone = 0; soxr_error_t e = 0; int have_in = 0, have_out = 0;
+  buf_t in, out; size_t idone = 0, odone = 0, wext = 0; soxr_error_t e = 0; int have_in = 0, have_out = 0;
   script = scr; nscript = nscr; script_pos = 0;
   if (!S->resamplers) { printf("< not-initialised\n"); return; }
   if (hasIn && S->flushing) { hasIn = 0; flushReq = 0; ilen = 0; }   /* no input after end-of-input (outside the contract) */
-  if (!null_out) { out = make_buf(otype, olen, 0); have_out = 1; }
+  if (!null_out) { out = make_buf(otype, olen, 0); have_out = 1; pattern_buf(&out, otype, olen); }
   if (is_pull) odone = soxr_output(S, out.arg, olen);
   else {
     if (hasIn) { in = make_buf(itype, ilen, 1); have_in = 1; }
@@ -206,11 +226,12 @@ static void run_process(int hasIn, int flushReq, int useIdone, size_t ilen, size
     if (have_in) free_buf(&in);
   }
   if (fn_live) { free_buf(&fn_buf); fn_live = 0; }
-  if (have_out) free_buf(&out);
+  if (have_out) { wext = write_extent(&out, otype, olen); free_buf(&out); }
   slew_left = slew_left > odone? slew_left - odone : 0;
   if (idone > ilen) printf("C breach idone=%zu ilen=%zu\n", idone, ilen);
   if (odone > olen) printf("C breach odone=%zu olen=%zu\n", odone, olen);
-  printf("< R id=%zu od=%zu err=%s fl=%d\n", idone, odone, e? e : (S->error? S->error : "-"), S->flushing);
+  if (wext > odone) printf("C extent wext=%zu odone=%zu\n", wext, odone);
+  printf("< R id=%zu od=%zu wext=%zu err=%s fl=%d\n", idone, odone, wext, e? e : (S->error? S->error : "-"), S->flushing);
 }
 
 int main(void)
